@@ -160,23 +160,47 @@ Proof.
   - cbn [flat_map]. now rewrite IH.
 Qed.
 
-Lemma walk_is_filtered_spec t : walk t = filter noext (spec_roots t).
-Proof. unfold walk, spec_roots. now rewrite <- walk_true_filter, walk_drop_top. Qed.
+(** the walk before 38fe584 lost every root below a directory named extensions *)
+Lemma walk_before_fix_filtered t : walk_before_fix t = filter noext (spec_roots t).
+Proof. unfold walk_before_fix, spec_roots. now rewrite <- walk_true_filter, walk_drop_top. Qed.
 
-Lemma walk_is_spec t : c19_root_named_extensions t = false -> walk t = spec_roots t.
+(** the walk of the current code: the top level tests the name, below it nothing is skipped *)
+Definition step_top (e : name * tree) : list objroot :=
+  if bytes_eqb (fst e) EXT then [] else step false e.
+
+Lemma walk_dir es : walk (Dir es) = flat_map step_top es.
 Proof.
-  intros H. rewrite walk_is_filtered_spec. apply filter_all.
-  apply (existsb_false_forallb (fun r => has_ext (fst r))), H.
+  cbn [walk]. apply flat_map_ext_in. intros [n c] _. unfold step_top. cbn [fst step andb].
+  destruct c as [fc|ces]; destruct (bytes_eqb n EXT); reflexivity.
 Qed.
 
-Lemma walk_no_ext t r : In r (walk t) -> has_ext (fst r) = false.
+(** the walk yields exactly the objects of the repository (no class is excluded any more) *)
+Lemma walk_is_spec t : walk t = spec_roots t.
 Proof.
-  rewrite walk_is_filtered_spec. intros H. apply filter_In in H as [_ H].
-  unfold noext in H. now apply negb_true_iff in H.
+  destruct t as [c|es]; [reflexivity|]. rewrite walk_dir. unfold spec_roots. cbn [drop_top_ext].
+  rewrite walk_gen_dir, flat_map_filter. apply flat_map_ext_in. intros [n c] _. unfold step_top. cbn beta. cbn [fst].
+  destruct (bytes_eqb n EXT); cbn [negb]; reflexivity.
 Qed.
 
 Lemma walk_in_spec t r : In r (walk t) -> In r (spec_roots t).
-Proof. rewrite walk_is_filtered_spec. intros H. now apply filter_In in H. Qed.
+Proof. now rewrite walk_is_spec. Qed.
+
+Lemma step_head deep n c r : In r (step deep (n, c)) -> exists q, fst r = n :: q.
+Proof.
+  destruct c as [fc|ces]; [intros []|]. cbn [step]. destruct (deep && bytes_eqb n EXT); [intros []|].
+  destruct (is_object_root ces).
+  - intros [<-|[]]. cbn [fst]. eauto.
+  - intros H. apply in_map_iff in H as (r' & <- & _). cbn [push fst]. eauto.
+Qed.
+
+(** no yielded root lies at or below the storage root's extensions directory *)
+Lemma walk_no_root_ext t r : In r (walk t) -> in_root_ext (fst r) = false.
+Proof.
+  destruct t as [c|es]; [intros []|]. rewrite walk_dir. intros H.
+  apply in_flat_map in H as ([n c] & _ & Hr). unfold step_top in Hr. cbn [fst] in Hr.
+  destruct (bytes_eqb n EXT) eqn:E; [destruct Hr|].
+  destruct (step_head false n c r Hr) as [q ->]. cbn [in_root_ext]. exact E.
+Qed.
 
 (** every yielded root is a directory with an object declaration *)
 Lemma walk_gen_roots deep t r : In r (walk_gen deep t) -> is_object_root (snd r) = true.
@@ -274,10 +298,9 @@ Qed.
 
 (** * Listing without a glob: exact *)
 Lemma listing_all_ids gm t :
-  c19_root_named_extensions t = false ->
   listed_ids (list_objects gm t None) = committed_ids t.
 Proof.
-  intros H. unfold list_objects. cbn [option_map]. rewrite listed_ids_iter_none, (walk_is_spec t H). reflexivity.
+  unfold list_objects. cbn [option_map]. rewrite listed_ids_iter_none, (walk_is_spec t). reflexivity.
 Qed.
 
 Lemma listing_all_no_errors gm t :
@@ -290,12 +313,12 @@ Proof.
 Qed.
 
 Lemma listing_exact gm t :
-  WellFormedRepo t -> c19_root_named_extensions t = false ->
+  WellFormedRepo t ->
   Permutation (listed_ids (list_objects gm t None)) (committed_ids t) /\
   NoDup (listed_ids (list_objects gm t None)) /\
   listed_errors (list_objects gm t None) = [].
 Proof.
-  intros [W N] H. rewrite (listing_all_ids gm t H). repeat split.
+  intros [W N]. rewrite (listing_all_ids gm t). repeat split.
   - apply Permutation_refl.
   - exact N.
   - apply listing_all_no_errors, W.
@@ -303,19 +326,19 @@ Qed.
 
 (** * Listing with a matcher *)
 Lemma iter_some_wf m t :
-  Forall wf_root (spec_roots t) -> c19 t = false ->
+  Forall wf_root (spec_roots t) -> c19_id_needs_escape t = false ->
   iter_items (Some m) t =
   flat_map (fun r => flat_map (fun i => if m i then [IOk (fst r) i] else []) (root_id r)) (spec_roots t).
 Proof.
-  intros W K. unfold c19 in K. apply orb_false_iff in K as [K1 K2].
-  unfold iter_items. rewrite (walk_is_spec t K1). apply flat_map_ext_in. intros r Hr.
+  intros W K2.
+  unfold iter_items. rewrite (walk_is_spec t). apply flat_map_ext_in. intros r Hr.
   rewrite Forall_forall in W. destruct (W r Hr) as [i Hi].
   pose proof (wf_root_id i r Hi) as Ei. rewrite Ei. cbn [flat_map]. rewrite app_nil_r.
   apply wf_root_some; [exact Hi|]. apply (no_escape_in t i K2), (in_committed t r i Hr Ei).
 Qed.
 
 Lemma listing_glob_lemma gm t g :
-  WellFormedRepo t -> c19 t = false ->
+  WellFormedRepo t -> c19_id_needs_escape t = false ->
   Permutation (listed_ids (list_objects gm t (Some g))) (filter (gm g) (committed_ids t)) /\
   listed_errors (list_objects gm t (Some g)) = [].
 Proof.
@@ -330,7 +353,7 @@ Proof.
     rewrite flat_map_app, IH. destruct (gm g i); reflexivity.
 Qed.
 
-(** * Nothing below a directory named extensions is ever yielded *)
+(** * Nothing at or below the storage root's extensions directory is ever yielded *)
 Lemma item_path_in_walk m t it :
   In it (iter_items m t) ->
   exists r, In r (walk t) /\ match it with IOk p _ => p = fst r | IErr p => p = fst r end.
@@ -351,10 +374,10 @@ Qed.
 
 Lemma no_extension_items gm t glob it :
   In it (list_objects gm t glob) ->
-  has_ext (match it with IOk p _ => p | IErr p => p end) = false.
+  in_root_ext (match it with IOk p _ => p | IErr p => p end) = false.
 Proof.
   unfold list_objects. intros H. apply item_path_in_walk in H as (r & Hr & E).
-  apply walk_no_ext in Hr. destruct it; now subst.
+  apply walk_no_root_ext in Hr. destruct it; now subst.
 Qed.
 
 (** * The scan lookup *)
@@ -395,7 +418,7 @@ Proof.
 Qed.
 
 Lemma scan_spec t id :
-  Forall wf_root (spec_roots t) -> c19 t = false ->
+  Forall wf_root (spec_roots t) -> c19_id_needs_escape t = false ->
   (forall p j, scan_for_inventory t id = Found p j -> j = id /\ In id (committed_ids t)) /\
   (In id (committed_ids t) -> exists p, scan_for_inventory t id = Found p id) /\
   (~ In id (committed_ids t) -> scan_for_inventory t id = NotFound) /\
